@@ -91,6 +91,12 @@ def d_two_nibble_constants():
         [("v", ("uint", 8))], None
 
 
+def d_lowhigh_const_then_u8():
+    # an identifier constant of 16 bits in low-high byte order between the service id and the first value
+    return B.request([B.coded_const("sid", 0x22, 0), B.coded_const("did", 0xF190, 1, 16, hl=False),
+                      B.value_param("v", B.dop("u8", 8))]), [("v", ("uint", 8))], None
+
+
 def d_matching_request_then_const():
     return B.response([B.coded_const("sid", 0x71, 0), B.matching_request("echo_sub", 1, 1),
                        B.matching_request("echo_id", 2, 2), B.coded_const("marker", 0xAA),
@@ -142,6 +148,14 @@ def d_end_of_pdu_field():
     f = B.end_of_pdu_field("items", item)
     return B.request([B.coded_const("sid", 0x22, 0), B.value_param("items", f)]), \
         [("items", ("list", ("dict", [("k", ("uint", 8)), ("blob", ("bytes", 0, 2))]), [0, 1, 2]))], None
+
+
+def d_end_of_pdu_field_min_max():
+    # MIN-/MAX-NUMBER-OF-ITEMS are given; odxtools encodes and decodes whatever number of items there is
+    item = B.structure("item", [B.value_param("k", B.dop("u8", 8))])
+    f = B.end_of_pdu_field("items", item, min_items=1, max_items=2)
+    return B.request([B.coded_const("sid", 0x22, 0), B.value_param("items", f)]), \
+        [("items", ("list", ("dict", [("k", ("uint", 8))]), [0, 1, 2, 3]))], None
 
 
 def d_static_field():
@@ -218,6 +232,19 @@ def d_table_key_struct():
     k = B.table_key("tk", t)
     return B.request([B.coded_const("sid", 0x22, 0), k, B.table_struct("ts", k)]), \
         [("ts", ("oneof", [("tuple", "row_a", ("dict", [("a", ("uint", 8))])), ("tuple", "row_b", ("uint", 16))]))], None
+
+
+def d_table_key_given_and_struct():
+    # the key may be given next to the TABLE-STRUCT value (it then has to name the same row); two rows whose contents
+    # have the same shape, so that a value meant for one row would also fit the other
+    sa = B.structure("sa", [B.value_param("a", B.dop("u8", 8))])
+    sc = B.structure("sc", [B.value_param("a", B.dop("u16", 16))])
+    t = B.table("tbl", B.dop("key", 8), [("row_a", 1, sa, None), ("row_c", 3, sc, None)])
+    k = B.table_key("tk", t)
+    return B.request([B.coded_const("sid", 0x22, 0), k, B.table_struct("ts", k)]), \
+        [("tk", ("str", ["row_a", "row_c"])),
+         ("ts", ("oneof", [("tuple", "row_a", ("dict", [("a", ("uint", 8))])),
+                           ("tuple", "row_c", ("dict", [("a", ("uint", 16))]))]))], None
 
 
 def d_table_fixed_row():
@@ -436,6 +463,8 @@ DESCRIPTIONS = {
     "struct-bytesize-params-out-of-order": d_struct_bytesize_params_out_of_order,
     "static-field-of-strings-last": d_static_field_of_strings_last,
     "dynamic-length-field-last": d_dynamic_length_field_last,
+    "lowhigh-const+u8": d_lowhigh_const_then_u8, "end-of-pdu-field-min-max": d_end_of_pdu_field_min_max,
+    "table-key-given+struct": d_table_key_given_and_struct,
 }
 
 # descriptions in which every bit of the PDU is determined by the decoded values: no reserved bits, no padding behind
@@ -443,7 +472,7 @@ DESCRIPTIONS = {
 # multiplexer re-encodes the lower limit of the case); strings are left out because the abstract codec (A-codec) makes
 # the comparison undecidable for the solvers, linear-int16 because the 16 bit two's complement comparison stays unknown
 DECODE_SKIP = {"dynamic-length-field-of-strings-last"}
-BYTES_DETERMINED = {"sid+u8", "lowhigh-12+4", "default", "phys-const", "linear-limited-u8",
+BYTES_DETERMINED = {"sid+u8", "lowhigh-12+4", "lowhigh-const+u8", "end-of-pdu-field-min-max", "default", "phys-const", "linear-limited-u8",
                     "minmax-zero+u8", "minmax-end-of-pdu", "minmax-hexff+const", "struct-param", "end-of-pdu-field",
                     "leading-length-bytes", "leading-length-le16", "leading-length-last", "dynamic-length-field",
                     "dtc", "table-key+struct", "length-key-bytes",
@@ -536,6 +565,15 @@ def _wire(desc, values, pdu):
         return bytes([0x22, v["v"]])
     if desc == "default":
         return bytes([0x22, v["level"] if "level" in v else 5])
+    if desc == "end-of-pdu-field-min-max":
+        return bytes([0x22] + [it["k"] for it in v["items"]])
+    if desc == "table-key-given+struct" and "ts" in v:
+        row, content = v["ts"]
+        if row == "row_a":
+            return bytes([0x22, 1, content["a"]])
+        return H.And(len(pdu) == 4, pdu[0] == 0x22, pdu[1] == 3, 256 * pdu[2] + pdu[3] == content["a"])
+    if desc == "lowhigh-const+u8":
+        return bytes([0x22, 0x90, 0xF1, v["v"]])
     if desc == "lowhigh-12+4":
         # 12 bit little endian value in the low bits of the byte pair, 4 bit value in the high nibble of the second byte
         return H.And(len(pdu) == 3, pdu[0] == 0x10, pdu[1] + 256 * pdu[2] == v["a"] + 4096 * v["b"])
@@ -597,7 +635,7 @@ def _fam(tier, seed):
 
 
 @harness(props=["C01", "C02", "C03", "C04", "C05", "C08"], strength="B", family=_fam,
-         bound="52 concrete request/response descriptions built from the real parameter / DOP / diag-coded-type classes "
+         bound="55 concrete request/response descriptions built from the real parameter / DOP / diag-coded-type classes "
          "(constants, defaults, reserved bits, low-high and non-aligned values, linear compu method, request echoes, "
          "MIN-MAX-LENGTH types with the three terminations, PHYS-CONST, SYSTEM, structures with and without BYTE-SIZE, end-of-PDU, static and dynamic-length fields, LEADING-LENGTH types, DTC DOP, multiplexer, table key/struct, PARAM-LENGTH-INFO types with their length key); per description every value is "
          "symbolic",
@@ -729,15 +767,15 @@ def d_condensed_nibble_const():
 
 PREFIX_ONLY = {"condensed-nibble-const": d_condensed_nibble_const}
 PREFIX_DESCRIPTIONS = ["sid+u8", "bitpos-spill", "lowhigh-12+4", "phys-const", "matching-request+const", "multiplexer",
-                       "two-nibble-constants", "condensed-nibble-const"]
+                       "two-nibble-constants", "condensed-nibble-const", "lowhigh-const+u8"]
 # number of leading bytes that are fully determined by constants (for responses: given the whole triggering request)
 CONSTANT_BYTES = {"sid+u8": 1, "bitpos-spill": 1, "lowhigh-12+4": 1, "phys-const": 2, "matching-request+const": 5,
-                  "multiplexer": 1, "two-nibble-constants": 2, "condensed-nibble-const": 1}
+                  "multiplexer": 1, "two-nibble-constants": 2, "condensed-nibble-const": 1, "lowhigh-const+u8": 3}
 
 
 @harness(props=["C06", "C08"], strength="B", family=lambda t, s: [{"desc": k} for k in PREFIX_DESCRIPTIONS],
-         bound="seven of the concrete descriptions (constants sharing a byte with values, request echoes, physical "
-         "constants) and a constant with a condensed bit mask sharing its byte with a value; values and the triggering request symbolic",
+         bound="eight of the concrete descriptions (constants sharing a byte with values, request echoes, physical "
+         "constants, a low-high constant) and a constant with a condensed bit mask sharing its byte with a value; values and the triggering request symbolic",
          functions=[composite_codec_get_coded_const_prefix, Request.coded_const_prefix, Response.coded_const_prefix],
          covers=["encoded"], assumes=["A-bitstruct"])
 def constant_prefix_is_a_prefix_of_every_message(desc):
@@ -853,7 +891,7 @@ def _two_length_service():
          family=lambda t, s: [{"desc": k, "phase": ph} for k in DESCRIPTIONS for ph in ("encode", "decode")
                               if not (ph == "decode" and k in DECODE_SKIP)] +
          [{"desc": "nrc-const-service", "phase": "decode"}, {"desc": "two-length-service", "phase": "decode"}],
-         bound="the 52 concrete descriptions plus one service with two NRC-CONST negative responses; values and "
+         bound="the 55 concrete descriptions plus one service with two NRC-CONST negative responses; values and "
          "messages symbolic",
          functions=FUNCTIONS + [DiagService.decode_message], covers=["strict-success"],
          assumes=["A-bitstruct", "A-lib"], limits={"max_paths": 40000, "task_timeout": 1500, "sym_for_unroll": 12}, use_contracts=["bcd"],
